@@ -99,6 +99,11 @@ func c11simple(r *rand.Rand, forms glyfref.Forms) (*glyfref.Simple, []byte) {
 	for i := range g.Instructions {
 		g.Instructions[i] = byte(r.Uint32())
 	}
+	if r.IntN(8) == 0 {
+		// the most compact encoding: identical flags are run-length coded
+		// with the longest possible runs (repeat count 255 for 256 points)
+		return g, glyfref.Encode(g, nil, forms)
+	}
 	return g, glyfref.Encode(g, r, forms)
 }
 
@@ -119,6 +124,7 @@ func c11composite(r *rand.Rand, numGlyphs int, k *mon.Case) ([]glyfref.Component
 		n = 1 + r.IntN(12)
 	}
 	withInstr := r.IntN(3) == 0
+	flagOn := r.IntN(n)
 	cs := make([]glyfref.Component, n)
 	for i := range cs {
 		var fl uint16
@@ -148,8 +154,8 @@ func c11composite(r *rand.Rand, numGlyphs int, k *mon.Case) ([]glyfref.Component
 		if i < n-1 {
 			fl |= 0x0020
 		}
-		if withInstr && (i == n-1 || r.IntN(3) == 0) {
-			fl |= 0x0100
+		if withInstr && (i == flagOn || r.IntN(3) == 0) {
+			fl |= 0x0100 // WE_HAVE_INSTRUCTIONS: on at least one component, not necessarily the last
 		}
 		args := make([]byte, glyfref.ArgLen(fl))
 		for j := range args {
@@ -159,6 +165,9 @@ func c11composite(r *rand.Rand, numGlyphs int, k *mon.Case) ([]glyfref.Component
 	}
 	var instr []byte
 	if withInstr {
+		if cs[n-1].Flags&0x0100 == 0 {
+			k.Class("composite:instructions-flag-not-on-last-component")
+		}
 		instr = make([]byte, r.IntN(40))
 		for j := range instr {
 			instr[j] = byte(r.Uint32())
@@ -398,7 +407,7 @@ func runC11(c *mon.Ctx) {
 	})
 	req := []string{"zero-contour-glyph", "simple-decoded", "composite-checked", "loca-format-0", "loca-format-1",
 		"harness-loca-format-0", "harness-loca-format-1", "composite:instructions", "composite:no-instructions",
-		"form:repeat-0", "form:repeat-1", "form:repeat-n", "form:flag-literal", "form:overlap-bit", "size<=65535", "size>131070"}
+		"form:repeat-0", "form:repeat-1", "form:repeat-n", "form:repeat-255", "composite:instructions-flag-not-on-last-component", "form:flag-literal", "form:overlap-bit", "size<=65535", "size>131070"}
 	for _, a := range []string{"x", "y"} {
 		for _, f := range []string{"same", "short-pos", "short-neg", "long"} {
 			req = append(req, "form:"+a+"-"+f)
